@@ -85,7 +85,7 @@ def program(draw, emphasis='c01'):
                       'outcome': draw(st.sampled_from(['ret'] * 4 + ['raise'] * fail_p + ['raise_sync'] * sync_p + ['raise_base'] * min(fail_p, 1)))})
     for p_ in plans:
         if p_['outcome'] == 'ret' and draw(st.integers(0, 5)) == 0:
-            p_['outcome'] = 'ret_none'            # a computation whose result is None
+            p_['outcome'] = draw(st.sampled_from(['ret_none', 'ret_any']))   # the result is None / equal to everything
         if draw(st.integers(0, 5)) == 0:
             p_['cleanup'] = draw(st.sampled_from([U, 0.25, 0.5]))     # takes this long to honour a cancellation
         if p_['outcome'] != 'raise_sync' and draw(st.integers(0, 7)) == 0:
@@ -211,7 +211,7 @@ def valid(case):
                 return False
             if not (0 <= p.get('cleanup', 0) <= 2):
                 return False
-            if p['outcome'] not in ('ret', 'ret_none', 'raise', 'raise_sync', 'raise_base') or not (-1 <= p['dur'] <= 2 or p['dur'] == LONG):
+            if p['outcome'] not in ('ret', 'ret_none', 'ret_any', 'raise', 'raise_sync', 'raise_base') or not (-1 <= p['dur'] <= 2 or p['dur'] == LONG):
                 return False
         for t in case['threads']:
             if t['runner'] not in ('run', 'manual', 'resume') or t['end']['mode'] not in ('await', 'leave', 'stop', 'cancel-all'):
